@@ -368,6 +368,13 @@ class FsmWorld(pipe.PipeWorld):
             if ok:
                 if self.cycle.get('hold_since') is None:
                     self.cycle['hold_since'] = self.sim.now
+                elif self.cycle['P'] == 2 and self.sim.now - self.cycle['hold_since'] > 3 * 0.2 + 0.6:
+                    # promptness is demanded for crew_idle only: 'no busy worker' is the same fact for the pipeline
+                    # (farm._busy, see C03) and for the ground truth, whereas the pipeline's own notions of 'nothing
+                    # executing' and 'queue empty' may lag behind ground truth without contradicting the statement
+                    self.violate('C12', 'submission_not_prompt', 'crew_idle',
+                                 f'strongest priority crew_idle (submissions {self.cycle["subs"]}): no worker has been busy since t={self.cycle["hold_since"]:.2f} '
+                                 f'(now {self.sim.now:.2f}, pipeline active) but the reload is not triggered; fsm.priority={self.fsm.priority}')
             else:
                 self.cycle['hold_since'] = None
 
@@ -483,7 +490,18 @@ class FsmWorld(pipe.PipeWorld):
         try:
             self.build()
             self.watch_hands()
-            self.fsm = pipeenv.boot_pipeline(self.sim, fsm_cls=self.fsm_cls)
+            try:
+                self.fsm = pipeenv.boot_pipeline(self.sim, fsm_cls=self.fsm_cls)
+            except core.HarnessError as e:
+                import dawgie.context as ctx
+
+                f = ctx.fsm
+                if self.outstanding():
+                    raise
+                # nothing is outstanding and the pipeline did not come to rest in running: the life cycle itself is stuck
+                self.violate('C10', 'not_at_rest', f'{f.state}/{f.transitioning.name}:boot',
+                             f'boot: no background step is outstanding but the pipeline is in {f.state}/{f.transitioning.name}; transitions: {self.transitions[-6:]}; {str(e)[-200:]}')
+                raise pipe.Stop()
             self.op('pipeline is running')
             nw = cfg['workers'] if isinstance(cfg['workers'], int) else cfg['workers'][self.ch.choose('gen.workers', len(cfg['workers']))]
             self.workers = [pipe.Worker(self, i) for i in range(nw)]
